@@ -443,10 +443,21 @@ def c08_n1(ctx):
         cnt[base] = cnt.get(base, 0) + 1
         key = base + ("#%d" % cnt[base] if cnt[base] > 1 else "")
         ebf = ExprBuilder(ctx.prog, f)
-        sa = {sstr(x) for x in eb.var_defs(expr_str(a))} if re.match(r"^\w+$", expr_str(a)) else {expr_str(a)}
-        sz = {sstr(x) for x in eb.var_defs(expr_str(z))} if re.match(r"^\w+$", expr_str(z)) else {expr_str(z)}
-        sa |= {sstr(x) for x in ebf.var_defs(expr_str(a))} if re.match(r"^\w+$", expr_str(a)) else set()
-        sz |= {sstr(x) for x in ebf.var_defs(expr_str(z))} if re.match(r"^\w+$", expr_str(z)) else set()
+        def _srcs(x):
+            """the value's definitions: a variable's, or - for `v.0` / `v.field` - the variable's with the projection"""
+            txt = expr_str(x)
+            m_ = re.match(r"^(\w+)((?:\.\w+)*)$", txt)
+            if not m_:
+                return {txt}
+            out = set()
+            for bld in (eb, ebf):
+                for d_ in bld.var_defs(m_.group(1)):
+                    ds_ = sstr(d_)
+                    out.add(ds_ + m_.group(2) if m_.group(2) else ds_)
+            return out or {txt}
+
+        sa = _srcs(a)
+        sz = _srcs(z)
         # (i) pair yielded by iterating Segments::gaps(..)
         gap_a = [x for x in sa if re.match(r"^\(Iterator>::next\((\w+)\)\)@Some\.0\.0$", x)]
         gap_z = [x for x in sz if re.match(r"^\(Iterator>::next\((\w+)\)\)@Some\.0\.1$", x)]
